@@ -212,45 +212,100 @@ const std::string MATH_INV =
     "      </apply>\n"
     "    </math>";
 
-std::string unitsBlock()
+// ---- the CONFLICTING TWIN of a document (variant 1): every named definition keeps its NAME but changes its MEANING -
+// units are re-defined on other base units / prefixes, variables change units and initial values, ids move to other
+// elements, import references point to other targets and the imported file (same url, other directory) has the twin
+// content, every integer <cn> is incremented (same cellml:units NAME, now another definition), in mathx x and y swap.
+std::string twinMath(const std::string &math, int v, bool swapXY = false)
 {
+    if (v == 0) return math;
+    std::string r;
+    size_t pos = 0;
+    while (true) { // ">N</cn>" -> ">N+1</cn>" for integer N
+        size_t e = math.find("</cn>", pos);
+        if (e == std::string::npos) { r += math.substr(pos); break; }
+        size_t b = e;
+        while (b > pos && isdigit(static_cast<unsigned char>(math[b - 1]))) --b;
+        if (b < e && b > 0 && math[b - 1] == '>') r += math.substr(pos, b - pos) + std::to_string(atoi(math.substr(b, e - b).c_str()) + 1) + "</cn>";
+        else r += math.substr(pos, e + 5 - pos);
+        pos = e + 5;
+    }
+    if (swapXY) {
+        auto all = [&](const std::string &a, const std::string &b) { size_t k = 0; while ((k = r.find(a, k)) != std::string::npos) { r.replace(k, a.size(), b); k += b.size(); } };
+        all("<ci>x</ci>", "<ci>#</ci>");
+        all("<ci>y</ci>", "<ci>x</ci>");
+        all("<ci>#</ci>", "<ci>y</ci>");
+    }
+    return r;
+}
+std::string unitsBlock(int v = 0)
+{
+    if (v)
+        return "  <units name=\"mV\">\n    <unit prefix=\"micro\" units=\"ampere\"/>\n  </units>\n"
+               "  <units name=\"mV_per_s\" id=\"u1\">\n    <unit units=\"mV\" exponent=\"2\"/>\n    <unit units=\"metre\" exponent=\"-1\"/>\n  </units>\n";
     return "  <units name=\"mV\" id=\"u1\">\n    <unit prefix=\"milli\" units=\"volt\"/>\n  </units>\n"
            "  <units name=\"mV_per_s\">\n    <unit units=\"mV\"/>\n    <unit units=\"second\" exponent=\"-1\"/>\n  </units>\n";
 }
-std::string varsBlock()
+std::string varsBlock(int v = 0)
 {
+    if (v)
+        return "    <variable name=\"t\" units=\"second\"/>\n"
+               "    <variable name=\"x\" units=\"mV_per_s\" initial_value=\"5\"/>\n"
+               "    <variable name=\"a\" units=\"mV\" initial_value=\"2\" id=\"vx\"/>\n"
+               "    <variable name=\"y\" units=\"mV_per_s\"/>\n";
     return "    <variable name=\"t\" units=\"second\"/>\n"
            "    <variable name=\"x\" units=\"mV\" initial_value=\"0\" id=\"vx\"/>\n"
            "    <variable name=\"a\" units=\"mV_per_s\" initial_value=\"1\"/>\n"
            "    <variable name=\"y\" units=\"mV\"/>\n";
 }
-std::string docWs(const std::string &name, const std::string &math)
+std::string docWs(const std::string &name, const std::string &math, int v = 0)
 {
-    return "<?xml version=\"1.0\" encoding=\"UTF-8\"?>\n<model xmlns=\"" + std::string(NS2) + "\" name=\"" + name + "\" id=\"mid\">\n" + unitsBlock()
-           + "  <component name=\"c\" id=\"cid\">\n" + varsBlock() + "    " + math + "\n  </component>\n</model>\n";
+    return "<?xml version=\"1.0\" encoding=\"UTF-8\"?>\n<model xmlns=\"" + std::string(NS2) + "\" name=\"" + name + "\" id=\"" + (v ? "cid" : "mid") + "\">\n" + unitsBlock(v)
+           + "  <component name=\"c\" id=\"" + (v ? "mid" : "cid") + "\">\n" + varsBlock(v) + "    " + twinMath(math, v) + "\n  </component>\n</model>\n";
 }
-std::string docResets()
+std::string docResets(int v = 0)
 {
-    return "<?xml version=\"1.0\" encoding=\"UTF-8\"?>\n<model xmlns=\"" + std::string(NS2) + "\" name=\"m_resets\">\n" + unitsBlock()
-           + "  <component name=\"c\">\n" + varsBlock()
-           + "    <reset variable=\"x\" test_variable=\"t\" order=\"1\" id=\"r1\">\n      <test_value>\n        " + MATH_TEST
-           + "\n      </test_value>\n      <reset_value id=\"rv\">\n        " + MATH_RESET + "\n      </reset_value>\n    </reset>\n    " + MATH_WS
+    return "<?xml version=\"1.0\" encoding=\"UTF-8\"?>\n<model xmlns=\"" + std::string(NS2) + "\" name=\"m_resets\">\n" + unitsBlock(v)
+           + "  <component name=\"c\">\n" + varsBlock(v)
+           + "    <reset variable=\"x\" test_variable=\"t\" order=\"" + (v ? "2" : "1") + "\" id=\"" + (v ? "rv" : "r1") + "\">\n      <test_value>\n        " + twinMath(MATH_TEST, v)
+           + "\n      </test_value>\n      <reset_value id=\"" + (v ? "r1" : "rv") + "\">\n        " + twinMath(MATH_RESET, v) + "\n      </reset_value>\n    </reset>\n    " + twinMath(MATH_WS, v)
            + "\n  </component>\n</model>\n";
 }
-std::string docImports()
+std::string docImports(int v = 0)
 {
     return "<?xml version=\"1.0\" encoding=\"UTF-8\"?>\n<model xmlns=\"" + std::string(NS2) + "\" name=\"m_imp\">\n"
            "  <import xmlns:xlink=\"http://www.w3.org/1999/xlink\" xlink:href=\"c12_lib.cellml\" id=\"imp1\">\n"
-           "    <units name=\"iu\" units_ref=\"mV\"/>\n"
+           "    <units name=\"iu\" units_ref=\"" + std::string(v ? "mV_per_s" : "mV") + "\"/>\n"
            "    <component name=\"ic\" component_ref=\"c\"/>\n"
            "  </import>\n"
            "  <component name=\"user\">\n"
-           "    <variable name=\"v\" units=\"iu\" initial_value=\"3\"/>\n"
+           "    <variable name=\"v\" units=\"iu\" initial_value=\"" + std::string(v ? "4" : "3") + "\"/>\n"
            "  </component>\n"
            "</model>\n";
 }
-std::string docV11()
+std::string docV11(int v = 0)
 {
+    if (v)
+        return "<?xml version=\"1.0\" encoding=\"UTF-8\"?>\n"
+               "<model xmlns=\"http://www.cellml.org/cellml/1.1#\" xmlns:cellml=\"http://www.cellml.org/cellml/1.1#\" name=\"m_v11\">\n"
+               "  <component name=\"c\">\n"
+               "    <variable name=\"t\" units=\"second\" public_interface=\"out\"/>\n"
+               "    <variable name=\"x\" units=\"second\" initial_value=\"1\" public_interface=\"none\"/>\n"
+               "    <math xmlns=\"http://www.w3.org/1998/Math/MathML\">\n"
+               "      <apply><eq/>\n"
+               "        <apply><diff/><bvar><ci>t</ci></bvar><ci>x</ci></apply>\n"
+               "        <cn cellml:units=\"volt\">2</cn>\n"
+               "      </apply>\n"
+               "    </math>\n"
+               "  </component>\n"
+               "  <component name=\"env\">\n"
+               "    <variable name=\"t\" units=\"second\" public_interface=\"in\"/>\n"
+               "  </component>\n"
+               "  <connection>\n"
+               "    <map_components component_1=\"env\" component_2=\"c\"/>\n"
+               "    <map_variables variable_1=\"t\" variable_2=\"t\"/>\n"
+               "  </connection>\n"
+               "</model>\n";
     return "<?xml version=\"1.0\" encoding=\"UTF-8\"?>\n"
            "<model xmlns=\"http://www.cellml.org/cellml/1.1#\" xmlns:cellml=\"http://www.cellml.org/cellml/1.1#\" name=\"m_v11\">\n"
            "  <component name=\"c\">\n"
@@ -291,11 +346,14 @@ const char *docName(int d)
     static const char *N[] = {"ws", "nows", "resets", "imports", "v11", "invalid", "unlinked", "mathx"};
     return N[d];
 }
-const std::string &docText(int d)
+const std::string &docText(int d, int v = 0)
 {
-    static std::vector<std::string> T;
-    if (T.empty()) T = {docWs("m_ws", MATH_WS), docWs("m_nows", MATH_NOWS), docResets(), docImports(), docV11(), docInvalid()};
-    return T[size_t(d)];
+    static std::vector<std::string> T[2];
+    if (T[0].empty()) {
+        T[0] = {docWs("m_ws", MATH_WS), docWs("m_nows", MATH_NOWS), docResets(), docImports(), docV11(), docInvalid()};
+        T[1] = {docWs("m_ws", MATH_WS, 1), docWs("m_nows", MATH_NOWS, 1), docResets(1), docImports(1), docV11(1), docInvalid()};
+    }
+    return T[v ? 1 : 0][size_t(d)];
 }
 
 std::string libDir()
@@ -303,12 +361,18 @@ std::string libDir()
     const char *e = getenv("C12_LIBDIR");
     return e && *e ? std::string(e) : std::string("/verif/build/scratch/c12-lib");
 }
+void ensureLibraryFile(const std::string &d, const std::string &want);
 void ensureLibrary()
-{ // the imported file = the "ws" document; written atomically, idempotent across concurrent workers
-    std::string d = libDir(), f = d + "/c12_lib.cellml";
+{ // the imported file = the "ws" document; same url in <dir>/twin/ = the conflicting twin of "ws"
+    ensureLibraryFile(libDir(), docText(D_WS));
+    ensureLibraryFile(libDir() + "/twin", docText(D_WS, 1));
+}
+void ensureLibraryFile(const std::string &d, const std::string &want)
+{ // written atomically, idempotent across concurrent workers
+    std::string f = d + "/c12_lib.cellml";
     std::string cmd = "mkdir -p '" + d + "'";
     if (system(cmd.c_str()) != 0) {}
-    std::string want = docText(D_WS), have;
+    std::string have;
     if (FILE *in = fopen(f.c_str(), "rb")) { char b[4096]; size_t n; while ((n = fread(b, 1, sizeof b, in)) > 0) have.append(b, n); fclose(in); }
     if (have == want) return;
     std::string tmp = f + ".tmp." + std::to_string(getpid());
@@ -316,18 +380,19 @@ void ensureLibrary()
 }
 
 // =================================================================== API-built twins of the 2.0 documents
-void addUnitsBlock(const ModelPtr &m)
+void addUnitsBlock(const ModelPtr &m, int tv = 0)
 {
     auto mv = Units::create("mV");
-    mv->setId("u1");
-    mv->addUnit("volt", "milli");
+    if (!tv) mv->setId("u1");
+    if (tv) mv->addUnit("ampere", "micro"); else mv->addUnit("volt", "milli");
     m->addUnits(mv);
     auto r = Units::create("mV_per_s");
-    r->addUnit("mV");
-    r->addUnit("second", -1.0);
+    if (tv) r->setId("u1");
+    if (tv) { r->addUnit("mV", 2.0); r->addUnit("metre", -1.0); }
+    else { r->addUnit("mV"); r->addUnit("second", -1.0); }
     m->addUnits(r);
 }
-void addVars(const ModelPtr &m, const ComponentPtr &c)
+void addVars(const ModelPtr &m, const ComponentPtr &c, int tv = 0)
 {
     auto mk = [&](const char *n, const char *u, const char *iv, const char *id) {
         auto v = Variable::create(n);
@@ -338,40 +403,46 @@ void addVars(const ModelPtr &m, const ComponentPtr &c)
         return v;
     };
     mk("t", "second", "", "");
+    if (tv) {
+        mk("x", "mV_per_s", "5", "");
+        mk("a", "mV", "2", "vx");
+        mk("y", "mV_per_s", "", "");
+        return;
+    }
     mk("x", "mV", "0", "vx");
     mk("a", "mV_per_s", "1", "");
     mk("y", "mV", "", "");
 }
-ModelPtr buildApi(int d)
+ModelPtr buildApi(int d, int tv = 0)
 {
     switch (d) {
     case D_WS: case D_NOWS: {
         auto m = Model::create(d == D_WS ? "m_ws" : "m_nows");
-        m->setId("mid");
-        addUnitsBlock(m);
+        m->setId(tv ? "cid" : "mid");
+        addUnitsBlock(m, tv);
         auto c = Component::create("c");
-        c->setId("cid");
+        c->setId(tv ? "mid" : "cid");
         m->addComponent(c);
-        addVars(m, c);
-        c->setMath((d == D_WS ? MATH_WS : MATH_NOWS) + "\n");
+        addVars(m, c, tv);
+        c->setMath(twinMath(d == D_WS ? MATH_WS : MATH_NOWS, tv) + "\n");
         return m;
     }
     case D_RESETS: {
         auto m = Model::create("m_resets");
-        addUnitsBlock(m);
+        addUnitsBlock(m, tv);
         auto c = Component::create("c");
         m->addComponent(c);
-        addVars(m, c);
+        addVars(m, c, tv);
         auto r = Reset::create();
         r->setVariable(c->variable("x"));
         r->setTestVariable(c->variable("t"));
-        r->setOrder(1);
-        r->setId("r1");
-        r->setTestValue(MATH_TEST + "\n");
-        r->setResetValue(MATH_RESET + "\n");
-        r->setResetValueId("rv");
+        r->setOrder(tv ? 2 : 1);
+        r->setId(tv ? "rv" : "r1");
+        r->setTestValue(twinMath(MATH_TEST, tv) + "\n");
+        r->setResetValue(twinMath(MATH_RESET, tv) + "\n");
+        r->setResetValueId(tv ? "r1" : "rv");
         c->addReset(r);
-        c->setMath(MATH_WS + "\n");
+        c->setMath(twinMath(MATH_WS, tv) + "\n");
         return m;
     }
     case D_IMPORTS: {
@@ -381,7 +452,7 @@ ModelPtr buildApi(int d)
         is->setId("imp1");
         auto u = Units::create("iu");
         u->setImportSource(is);
-        u->setImportReference("mV");
+        u->setImportReference(tv ? "mV_per_s" : "mV");
         m->addUnits(u);
         auto ic = Component::create("ic");
         ic->setImportSource(is);
@@ -391,7 +462,7 @@ ModelPtr buildApi(int d)
         m->addComponent(user);
         auto v = Variable::create("v");
         v->setUnits(u);
-        v->setInitialValue(std::string("3"));
+        v->setInitialValue(std::string(tv ? "4" : "3"));
         user->addVariable(v);
         return m;
     }
@@ -419,11 +490,11 @@ ModelPtr buildApi(int d)
         };
         mk("t", "dimensionless", "");
         mk("z", "dimensionless", "0");
-        mk("x", "dimensionless", "100");
-        mk("y", "dimensionless", "8");
-        mk("b", "dimensionless", "3");
+        mk("x", "dimensionless", tv ? "7" : "100");
+        mk("y", "dimensionless", tv ? "2" : "8");
+        mk("b", "dimensionless", tv ? "5" : "3");
         for (const char *n : {"r1", "r2", "r3", "r4", "l1", "l2", "p1", "p2", "p3", "w1", "m1", "m2"}) mk(n, "dimensionless", "");
-        c->setMath(MATH_X + "\n");
+        c->setMath(twinMath(MATH_X, tv, true) + "\n");
         return m;
     }
     case D_UNLINKED: {
@@ -534,7 +605,10 @@ struct OpDef
     int doc;
     bool strict;
     std::string name;
+    int variant = 0; // 1 = works on the conflicting twin of the document
 };
+int NMAIN = 0;                 // the first NMAIN entries of the table are the main alphabet (op id == position)
+std::vector<int> TWIN_ALPHABET; // base ops that have a twin + their twin variants
 const std::vector<OpDef> &sigma()
 {
     static std::vector<OpDef> S;
@@ -555,10 +629,38 @@ const std::vector<OpDef> &sigma()
         S.push_back({ANNOTATE, D_NOWS, true, "annotator.assignAllIds(nows)"});
         S.push_back({SCALING, D_WS, true, "Units::scalingFactor(ws)"});
         S.push_back({ISDEFINED, D_WS, true, "Component::isDefined(ws)"});
+        NMAIN = int(S.size());
+        // the conflicting-twin dimension: every service (and the parser) once more, on the twin of its document
+        for (int i = 0; i < NMAIN; ++i) {
+            OpDef o = S[size_t(i)];
+            bool eligible = o.k == PARSE ? ((o.strict && (o.doc == D_WS || o.doc == D_RESETS || o.doc == D_IMPORTS)) || (!o.strict && o.doc == D_V11))
+                                         : (o.doc == D_WS || o.doc == D_NOWS || o.doc == D_RESETS || o.doc == D_IMPORTS || o.doc == D_MATHX);
+            if (!eligible) continue;
+            TWIN_ALPHABET.push_back(i);
+            o.variant = 1;
+            o.name.insert(o.name.size() - 1, "~twin");
+            TWIN_ALPHABET.push_back(int(S.size()));
+            S.push_back(o);
+        }
     }
     return S;
 }
-int NOPS() { return int(sigma().size()); }
+int ALPHA = 0; // 0: main alphabet, 1: twin alphabet (set by the family before anything runs)
+const std::vector<int> &alphabet()
+{
+    static std::vector<int> mainA;
+    sigma();
+    if (mainA.empty()) for (int i = 0; i < NMAIN; ++i) mainA.push_back(i);
+    return ALPHA ? TWIN_ALPHABET : mainA;
+}
+int NOPS() { return int(alphabet().size()); }
+size_t posOf(int op)
+{
+    auto &a = alphabet();
+    for (size_t i = 0; i < a.size(); ++i) if (a[i] == op) return i;
+    fprintf(stderr, "c12: op %d is not in the current alphabet\n", op);
+    exit(3);
+}
 const char *kindName(Kind k)
 {
     static const char *N[] = {"parse", "print", "print_autoIds", "validate", "analyse", "generateC", "generatePython", "generatePowerOperatorProfile", "resolve", "flatten", "annotate", "scalingFactor", "isDefined"};
@@ -588,8 +690,8 @@ struct World
     AnalyserPtr analyser = Analyser::create();
     GeneratorPtr generator = Generator::create();
     ImporterPtr importer = Importer::create();
-    ModelPtr pool[NM];
-    ModelPtr twin[NM];
+    ModelPtr pool[NM * 2]; // [doc * 2 + variant]
+    ModelPtr twin[NM * 2];
     std::vector<Held> held;
     AnalyserPtr genAnalyser;
     ModelPtr genArg;
@@ -603,14 +705,25 @@ struct World
         if (auto x = loggerIncoherence(l)) sink->push_back({std::string("C15:logger-incoherent:") + service, {{"what", *x}}});
     }
     // the model a service call works on: returned by an earlier parse of this history, else built through the API
-    ModelPtr arg(int d)
+    ModelPtr arg(int d, int v)
     {
-        if (pool[d]) return pool[d];
-        if (!twin[d]) {
-            if (parsedArgs && d < ND) twin[d] = Parser::create(true)->parseModel(docText(d));
-            else twin[d] = buildApi(d);
+        int k = d * 2 + v;
+        if (pool[k]) return pool[k];
+        if (!twin[k]) {
+            if (parsedArgs && d < ND) twin[k] = Parser::create(true)->parseModel(docText(d, v));
+            else twin[k] = buildApi(d, v);
         }
-        return twin[d];
+        return twin[k];
+    }
+    // the caller lets go of every model and every result it holds (the service instances stay)
+    void dropAll()
+    {
+        for (auto &m : pool) m = nullptr;
+        for (auto &m : twin) m = nullptr;
+        held.clear();
+        genAnalyser = nullptr;
+        genArg = nullptr;
+        genArgContent.clear();
     }
     void hold(const std::string &kind, const std::string &from, std::function<std::string()> f)
     {
@@ -639,8 +752,8 @@ struct World
     std::string argsKey(int opi)
     {
         const OpDef &o = sigma()[size_t(opi)];
-        if (o.k == PARSE) return std::string("text:") + docName(o.doc);
-        return canonRaw(arg(o.doc));
+        if (o.k == PARSE) return std::string("text:") + docName(o.doc) + (o.variant ? "~twin" : "");
+        return canonRaw(arg(o.doc, o.variant));
     }
 
     // executes the operation on the real objects; returns the observation
@@ -649,16 +762,17 @@ struct World
         sink = &out;
         const OpDef &o = sigma()[size_t(opi)];
         std::string obs;
-        ModelPtr m = o.k == PARSE ? nullptr : arg(o.doc);
+        ModelPtr m = o.k == PARSE ? nullptr : arg(o.doc, o.variant);
+        const std::string base = libDir() + (o.variant ? "/twin/" : "/");
         std::string before = m ? canonRaw(m) : std::string();
         bool frame = true; // the statement promises an unchanged argument
         switch (o.k) {
         case PARSE: {
             auto &p = o.strict ? parserS : parserP;
-            auto r = p->parseModel(docText(o.doc));
+            auto r = p->parseModel(docText(o.doc, o.variant));
             logger(p, "parser");
             obs = canonRaw(r) + "\n" + issuesDump(p);
-            pool[o.doc] = r;
+            pool[o.doc * 2 + o.variant] = r;
             hold("parsed-model", o.name, [r] { return canonRaw(r); });
             holdIssues(p, "parser", o.name);
             break;
@@ -687,7 +801,7 @@ struct World
                     break;
                 }
             }
-            hold(std::string("AnalyserModel(") + docName(o.doc) + ")", o.name, [am] { return amDump(am); });
+            hold(std::string("AnalyserModel(") + docName(o.doc) + (o.variant ? "~twin" : "") + ")", o.name, [am] { return amDump(am); });
             holdIssues(analyser, "analyser", o.name);
             break;
         }
@@ -703,7 +817,7 @@ struct World
                 genArg = m;
                 genArgContent = before;
                 auto held = genAnalyser->model();
-                hold(std::string("AnalyserModel(") + docName(o.doc) + ")-given-to-generator", o.name, [held] { return amDump(held); });
+                hold(std::string("AnalyserModel(") + docName(o.doc) + (o.variant ? "~twin" : "") + ")-given-to-generator", o.name, [held] { return amDump(held); });
             }
             auto an = genAnalyser;
             auto am = an->model();
@@ -724,18 +838,19 @@ struct World
         }
         case RESOLVE: {
             frame = false; // resolving attaches models to the import sources: documented mutation
-            bool ok = importer->resolveImports(m, libDir() + "/");
+            bool ok = importer->resolveImports(m, base);
             logger(importer, "importer");
-            obs = std::string("resolved=") + (ok ? "1" : "0") + " unresolved=" + std::to_string(m->hasUnresolvedImports()) + " library=" + std::to_string(importer->libraryCount()) + "\n" + issuesDump(importer);
-            for (size_t i = 0; i < importer->libraryCount(); ++i) obs += "library[" + std::to_string(i) + "] " + canonRaw(importer->library(i)) + "\n";
-            for (size_t i = 0; i < m->unitsCount(); ++i) if (m->units(i)->isImport() && m->units(i)->importSource()) obs += "units-import-model " + canonRaw(m->units(i)->importSource()->model()) + "\n";
+            // (the importer's library is documented state of the instance: only what THIS call attached to THIS model is observed)
+            obs = std::string("resolved=") + (ok ? "1" : "0") + " unresolved=" + std::to_string(m->hasUnresolvedImports()) + "\n" + issuesDump(importer);
+            for (size_t i = 0; i < m->unitsCount(); ++i) if (m->units(i)->isImport() && m->units(i)->importSource()) obs += "units-import-model " + q(m->units(i)->name()) + " " + canonRaw(m->units(i)->importSource()->model()) + "\n";
+            for (size_t i = 0; i < m->componentCount(); ++i) if (m->component(i)->isImport() && m->component(i)->importSource()) obs += "component-import-model " + q(m->component(i)->name()) + " " + canonRaw(m->component(i)->importSource()->model()) + "\n";
             holdIssues(importer, "importer", o.name);
             break;
         }
         case FLATTEN: {
             bool resolvedHere = false;
             if (m->hasUnresolvedImports()) {
-                importer->resolveImports(m, libDir() + "/");
+                importer->resolveImports(m, base);
                 logger(importer, "importer");
                 resolvedHere = true;
                 before = canonRaw(m);
@@ -750,7 +865,7 @@ struct World
         }
         case ANNOTATE: {
             // mutates its model by contract: works on a private API-built model, with a fresh Annotator
-            auto pm = buildApi(o.doc);
+            auto pm = buildApi(o.doc, o.variant);
             auto an = Annotator::create();
             an->setModel(pm);
             bool ok = an->assignAllIds();
@@ -799,6 +914,7 @@ struct RunMode
     bool stateless = false; // closure family: every op in a fresh world (globals are the only carrier)
     bool parsedArgs = false;
     bool repeat = true;     // second call on the same instance
+    bool dropAfterOps = false; // twin family: after every history op the caller destroys every model and result it holds
 };
 
 void writeAll(int fd, const std::string &s)
@@ -853,7 +969,7 @@ Running startCase(const std::vector<int> &hist, const std::vector<int> &probes, 
         std::vector<Finding> sinkF;
         for (int op : hist) {
             if (mode.stateless) { World t; t.apply(op, sinkF); }
-            else { w->apply(op, sinkF); w->checkHeld(sigma()[size_t(op)].name, sinkF); }
+            else { w->apply(op, sinkF); w->checkHeld(sigma()[size_t(op)].name, sinkF); if (mode.dropAfterOps) w->dropAll(); }
             if (mode.restoreKb) G.restoreKeepBlanks();
         }
         emit(fd, {{"t", "history-done"}});
@@ -935,9 +1051,7 @@ CaseResult runCase(const std::vector<int> &hist, const std::vector<int> &probes,
 
 std::vector<int> allProbes()
 {
-    std::vector<int> v;
-    for (int i = 0; i < NOPS(); ++i) v.push_back(i);
-    return v;
+    return alphabet();
 }
 json histNames(const std::vector<int> &h)
 {
@@ -977,12 +1091,13 @@ Verdict judge(const ProbeResult &pr, const ProbeResult &ref)
 std::vector<ProbeResult> &freshRef(const RunMode &base)
 {
     static std::map<int, std::vector<ProbeResult>> cache;
-    int key = (base.stateless ? 1 : 0) | (base.repeat ? 2 : 0);
+    int key = (base.stateless ? 1 : 0) | (base.repeat ? 2 : 0) | (ALPHA << 2);
     auto it = cache.find(key);
     if (it != cache.end()) return it->second;
     RunMode m = base;
     m.restoreKb = false;
     m.parsedArgs = false;
+    m.dropAfterOps = false;
     CaseResult r = runCase({}, allProbes(), m);
     if (!r.childCrash.empty()) { fprintf(stderr, "c12: fresh reference run died: %s\n", r.childCrash.c_str()); exit(3); }
     for (auto &p : r.probes) if (!p.ran || !p.crash.empty()) { fprintf(stderr, "c12: fresh reference probe %s died: %s\n", sigma()[size_t(p.p)].name.c_str(), p.crash.c_str()); exit(3); }
@@ -1027,8 +1142,8 @@ void judgeHistory(const std::vector<int> &hist, const RunMode &base, Ctx &ctx, c
         ctx.count("counterfactual_runs");
         for (size_t k = 0; k < C.probes.size(); ++k) {
             if (!C.childCrash.empty()) { Verdict v; v.findings["crash:in-history-under-intervention:" + C.childCrash] = json::object(); vc[again[k]] = v; continue; }
-            Verdict v = judge(C.probes[k], ref[size_t(again[k])]);
-            if (v.argsDiffer) v.findings["impure:" + sigma()[size_t(again[k])].name + ":argument-model-differs-from-the-fresh-one-even-with-keepBlanks-restored"] = diffExcerpt(ref[size_t(again[k])].args, C.probes[k].args);
+            Verdict v = judge(C.probes[k], ref[posOf(again[k])]);
+            if (v.argsDiffer) v.findings["impure:" + sigma()[size_t(again[k])].name + ":argument-model-differs-from-the-fresh-one-even-with-keepBlanks-restored"] = diffExcerpt(ref[posOf(again[k])].args, C.probes[k].args);
             vc[again[k]] = v;
         }
     }
@@ -1039,7 +1154,7 @@ void judgeHistory(const std::vector<int> &hist, const RunMode &base, Ctx &ctx, c
         std::string cls = std::string(kindName(o.k)) + "|keepBlanks=" + kbNow;
         if (vr[i].findings.empty() && !vr[i].argsDiffer) { ctx.outcome("same-as-fresh|" + cls); continue; }
         const Verdict &c = vc[p];
-        json common = {{"history", histNames(hist)}, {"probe", o.name}, {"global_state_before_probe", R.tuple}, {"fresh_global_state", freshTuple()}};
+        json common = {{"history", histNames(hist)}, {"probe", o.name}, {"caller_destroys_all_models_and_results_after_each_history_op", base.dropAfterOps}, {"global_state_before_probe", R.tuple}, {"fresh_global_state", freshTuple()}};
         bool any = false;
         if (vr[i].argsDiffer) {
             // the argument itself came out of an earlier call of this history: this probe is judged in the counterfactual world only
@@ -1072,7 +1187,7 @@ std::vector<int> histAt(uint64_t i)
     while (i >= pw(uint64_t(NOPS()), l)) { i -= pw(uint64_t(NOPS()), l); ++l; }
     std::vector<int> h(size_t(l), 0);
     Radix r(i);
-    for (int k = l - 1; k >= 0; --k) h[size_t(k)] = int(r.take(uint64_t(NOPS())));
+    for (int k = l - 1; k >= 0; --k) h[size_t(k)] = alphabet()[size_t(r.take(uint64_t(NOPS())))];
     return h;
 }
 std::vector<int> parseHist(const std::string &s)
@@ -1086,8 +1201,9 @@ std::vector<int> parseHist(const std::string &s)
 
 Family histFamily(const std::string &name)
 {
-    return Family{name, [] { return histCount(); },
+    return Family{name, [] { ALPHA = 0; return histCount(); },
                   [](uint64_t i, Ctx &ctx) {
+                      ALPHA = 0;
                       ensureLibrary();
                       RunMode m;
                       auto h = histAt(i);
@@ -1096,16 +1212,53 @@ Family histFamily(const std::string &name)
                           auto &ref = freshRef(m);
                           CaseResult again = runCase({}, allProbes(), m);
                           for (size_t k = 0; k < ref.size(); ++k)
-                              if (again.probes[k].obs != ref[k].obs || again.probes[k].args != ref[k].args) ctx.violation("HARNESS:fresh-process-observation-not-deterministic:" + sigma()[k].name, diffExcerpt(ref[k].obs, again.probes[k].obs));
+                              if (again.probes[k].obs != ref[k].obs || again.probes[k].args != ref[k].args) ctx.violation("HARNESS:fresh-process-observation-not-deterministic:" + sigma()[size_t(alphabet()[k])].name, diffExcerpt(ref[k].obs, again.probes[k].obs));
                       }
                       judgeHistory(h, m, ctx);
                   },
-                  [](uint64_t i) { return json{{"history", histNames(histAt(i))}, {"probes", "every operation of the alphabet"}, {"alphabet_size", NOPS()}}; }};
+                  [](uint64_t i) { ALPHA = 0; return json{{"history", histNames(histAt(i))}, {"probes", "every operation of the alphabet"}, {"alphabet_size", NOPS()}}; }};
+}
+
+// Conflicting-twin family: alphabet = every service (and the parser) on a document AND on its conflicting twin (same names,
+// other meanings); all histories of length <= C12_TWINLEN over it, each followed by every operation of that alphabet, on the
+// long-lived service instances; every history in two modes: the caller keeps / destroys all models and results it holds
+// after each history op (the service instances must not depend on objects the caller has let go of).
+int twinLen()
+{
+    const char *e = getenv("C12_TWINLEN");
+    return e ? atoi(e) : 1;
+}
+uint64_t twinHistCount() { uint64_t n = 0; for (int l = 0; l <= twinLen(); ++l) n += pw(uint64_t(TWIN_ALPHABET.size()), l); return n; }
+std::vector<int> twinHistAt(uint64_t i)
+{
+    uint64_t n = TWIN_ALPHABET.size();
+    int l = 0;
+    while (i >= pw(n, l)) { i -= pw(n, l); ++l; }
+    std::vector<int> h(size_t(l), 0);
+    Radix r(i);
+    for (int k = l - 1; k >= 0; --k) h[size_t(k)] = TWIN_ALPHABET[size_t(r.take(n))];
+    return h;
+}
+Family twinFamily(const std::string &name)
+{
+    return Family{name, [] { sigma(); return 2 * twinHistCount(); },
+                  [](uint64_t i, Ctx &ctx) {
+                      sigma();
+                      ALPHA = 1;
+                      ensureLibrary();
+                      RunMode m;
+                      m.dropAfterOps = i >= twinHistCount(); // second half of the index space: the destroying mode
+                      auto h = twinHistAt(i % twinHistCount());
+                      if (h.empty() && m.dropAfterOps) { ctx.outcome("empty-history(drop mode adds nothing)"); return; }
+                      judgeHistory(h, m, ctx); // (the mode is in the detail, not in the signature: same classes as without destruction)
+                  },
+                  [](uint64_t i) { sigma(); ALPHA = 1; return json{{"history", histNames(twinHistAt(i % twinHistCount()))}, {"caller_destroys_models_and_results_after_each_op", i >= twinHistCount()}, {"probes", "every operation of the twin alphabet"}, {"alphabet_size", TWIN_ALPHABET.size()}}; }};
 }
 
 // BFS to closure over the abstract global-state tuple; ops in fresh worlds
 void closureRun(uint64_t, Ctx &ctx)
 {
+    ALPHA = 0;
     ensureLibrary();
     RunMode m;
     m.stateless = true;
@@ -1180,7 +1333,7 @@ void closureRun(uint64_t, Ctx &ctx)
 std::vector<int> serviceOps()
 {
     std::vector<int> v;
-    for (int i = 0; i < NOPS(); ++i) if (sigma()[size_t(i)].k != PARSE) v.push_back(i);
+    for (int i = 0; i < int(sigma().size()); ++i) if (sigma()[size_t(i)].k != PARSE) v.push_back(i);
     return v;
 }
 void selftestRun(uint64_t i, Ctx &ctx)
@@ -1188,14 +1341,15 @@ void selftestRun(uint64_t i, Ctx &ctx)
     ensureLibrary();
     RunMode m;
     int p = serviceOps()[size_t(i)];
+    ALPHA = p < NMAIN ? 0 : 1;
     auto &ref = freshRef(m);
     m.parsedArgs = true;
     CaseResult r = runCase({}, {p}, m);
     ++ctx.judged;
     const auto &pr = r.probes[0];
     if (!pr.ran || !pr.crash.empty()) { ctx.violation("HARNESS:selftest-probe-died:" + sigma()[size_t(p)].name, {{"how", pr.crash}}); return; }
-    if (pr.args != ref[size_t(p)].args) ctx.violation("HARNESS:api-twin-differs-from-fresh-strict-parse:arguments:" + sigma()[size_t(p)].name, diffExcerpt(ref[size_t(p)].args, pr.args));
-    else if (pr.obs != ref[size_t(p)].obs) ctx.violation("HARNESS:api-twin-differs-from-fresh-strict-parse:observation:" + sigma()[size_t(p)].name, diffExcerpt(ref[size_t(p)].obs, pr.obs));
+    if (pr.args != ref[posOf(p)].args) ctx.violation("HARNESS:api-twin-differs-from-fresh-strict-parse:arguments:" + sigma()[size_t(p)].name, diffExcerpt(ref[posOf(p)].args, pr.args));
+    else if (pr.obs != ref[posOf(p)].obs) ctx.violation("HARNESS:api-twin-differs-from-fresh-strict-parse:observation:" + sigma()[size_t(p)].name, diffExcerpt(ref[posOf(p)].obs, pr.obs));
     else ctx.outcome("twin-equals-parsed");
     // the tuple must be readable: the abstraction is meaningless otherwise
     if (!freshTuple().is_object() || !freshTuple().contains("xmlKeepBlanksDefaultValue")) ctx.violation("HARNESS:cannot-read-libxml2-globals", freshTuple());
@@ -1209,12 +1363,15 @@ int main(int argc, char **argv)
     std::vector<Family> fs = {
         histFamily("hist"),
         histFamily("hist_asan"), // same cases; separate name so that the ASan sub-family is accounted separately
+        twinFamily("twin"),
+        twinFamily("twin_asan"),
         Family{"closure", [] { return uint64_t(1); }, closureRun,
                [](uint64_t) { json a = json::array(); for (auto &o : sigma()) a.push_back(o.name); return json{{"alphabet", a}, {"state", "abstract tuple of libxml2 globals + DTD flag"}}; }},
         Family{"selftest", [] { return uint64_t(serviceOps().size()); }, selftestRun, [](uint64_t i) { return json{{"probe", sigma()[size_t(serviceOps()[size_t(i)])].name}}; }},
         // inspection aid (not part of the check): the fresh-process tuple and, with -v, every fresh observation
         Family{"fresh", [] { return uint64_t(1); },
                [](uint64_t, Ctx &ctx) {
+                   ALPHA = g_options.count("twin") ? 1 : 0;
                    ensureLibrary();
                    ++ctx.judged;
                    printf("# fresh tuple: %s\n", freshTuple().dump().c_str());
